@@ -286,7 +286,7 @@ def c14(cx):
     thorough = cx.tier == "thorough"
     # thorough: up to two cuts per scenario (measured: 291k states / 36.8k scenarios in 30 s); two-row tables
     # with every cut set do not finish in an hour and are left to the random driver
-    b1 = model_check(cx, "MC_C14", consts=({"MaxCuts": 2} if thorough else None), timeout=3000)
+    b1 = model_check(cx, "MC_C14", consts=({"MaxCuts": 2, "MaxExt": 1} if thorough else None), timeout=3000)
     files = [("tlc", subsample(cx, b1, 60000 if thorough else 5000))]
     files.append(("rand", gen_random(cx, "C14", 20000 if thorough else 1500)))
     for tag, b in files:
